@@ -1,0 +1,30 @@
+//go:build verif
+
+// Assumed (trusted) contracts for configuration accessors: values obey
+// embedx/config.schema.json (assumption T9 of /verif/DESIGN.md). Comment-only.
+
+package config
+
+//@ func (*Config).MaxReadDepth
+//@   trusted
+//@   pure
+//@   ensures result >= 1
+
+//@ func (*Config).MaxReadWidth
+//@   trusted
+//@   pure
+//@   ensures result >= 1
+
+//@ func (*Config).StrictMode
+//@   trusted
+//@   pure
+
+//@ func (*Config).BatchCheckParallelizationLimit
+//@   trusted
+//@   pure
+//@   ensures result >= 1
+
+//@ func (*Config).NamespaceManager
+//@   trusted
+//@   pure
+//@   ensures result1 == nil ==> result0 != nil
